@@ -426,12 +426,33 @@ func oneCase(m *mp.Model, doc *c02.ClassF, rs ruleSet, seed uint64, fonts text.F
 	o := render.Guard(20*time.Second, func() {
 		pages, _, _ = render.LayoutOnly(doc.HTML, fonts, render.Opts{})
 	})
+	var retried []*bo.PageBox
+	useRetry := false
+	if o.Timeout {
+		// loaded machine: run it again alone with a long limit; a real hang is C01's finding
+		var pages2 []*bo.PageBox // the first goroutine may still be writing `pages`
+		o = render.Guard(180*time.Second, func() {
+			pages2, _, _ = render.LayoutOnly(doc.HTML, fonts, render.Opts{})
+		})
+		retried = pages2
+		useRetry = true
+		if o.Timeout {
+			out.Count(doc.HTML, false)
+			out.Hit("skipped-timeout")
+			out.Notes = append(out.Notes, "layout timed out twice (20 s, 180 s); reported under C01: "+doc.HTML)
+			return nil
+		}
+	}
 	if !o.OK() {
 		out.Count(doc.HTML, false)
 		out.Add(res.Finding{Kind: "crash", Op: "crash:c12", Input: doc.HTML, Reason: o.Panic, Key: o.Site, Seed: seed})
 		return nil
 	}
-	impl := observe(pages)
+	final := retried
+	if !useRetry {
+		final = pages
+	}
+	impl := observe(final)
 	out.Count(doc.HTML, len(impl) >= 2 && len(rs.rules) >= 2)
 	out.Hit(fmt.Sprintf("pages=%d", min(len(impl), 8)))
 	out.Hit(fmt.Sprintf("rules=%d", len(rs.rules)))
